@@ -15,6 +15,7 @@ mod comp_rx;
 mod comp_segs;
 mod comp_tx;
 mod comp_txconc;
+mod comp_rxconc;
 mod comp_pair;
 mod comp_vsock;
 mod comp_wire;
@@ -28,6 +29,7 @@ const DISPATCHERS: &[fn(&[&str]) -> Option<String>] = &[
     comp_segs::dispatch,
     comp_tx::dispatch,
     comp_txconc::dispatch,
+    comp_rxconc::dispatch,
     comp_cubic::dispatch,
     comp_wire::dispatch,
     comp_vsock::dispatch,
